@@ -780,11 +780,9 @@ def c06_group(group, generating=None, corrupt_dg=None, parts=('reductions', 'gen
             betas = {f'y_{lab}': float(a[i]) for i, lab in enumerate(labels)}
             try:
                 og = G.get_value_and_derivatives(betas=betas, database=dbav, gradient=True, hessian=False, bhhh=False, aggregation=False,
-                                                 prepare_ids=True)
-                order = list(G.id_manager.free_betas.names)
+                                                 prepare_ids=True, named_results=True)
                 ogm = Gmu.get_value_and_derivatives(betas=betas, database=dbav, gradient=True, hessian=False, bhhh=False,
-                                                    aggregation=False, prepare_ids=True)
-                order_m = list(Gmu.id_manager.free_betas.names)
+                                                    aggregation=False, prepare_ids=True, named_results=True)
                 t1 = {lab: _eval(lg1[lab], dbav, betas) for lab in labels}
                 tm = {lab: _eval(lgm[lab], dbav, betas) for lab in labels}
             except Exception as e:  # noqa
@@ -800,8 +798,8 @@ def c06_group(group, generating=None, corrupt_dg=None, parts=('reductions', 'gen
                 want_dg = vals(r['dg'], refs)
                 if corrupt_dg is not None:
                     want_dg = corrupt_dg(want_dg)
-                grad = {nm: float(og.gradients[row][j]) for j, nm in enumerate(order)}
-                grad_m = {nm: float(ogm.gradients[row][j]) for j, nm in enumerate(order_m)}
+                grad = {nm: float(x) for nm, x in og.gradients[row].items()}
+                grad_m = {nm: float(x) for nm, x in ogm.gradients[row].items()}
                 feats = facts_of(r, 'get_mev_generating_for_nested', 'generating')
                 if mu == 1.0:
                     col.n += 1
